@@ -264,7 +264,8 @@ def _tiny_css(nmax):
 
 def run(tier, seed):
     quick = tier == 'quick'
-    ntrees, size = (300, 12) if quick else (5000, 40)
+    ntrees, size = (300, 12) if quick else (4000, 40)
+    ncss = 300 if quick else 2000
     out = []
 
     c = Clause('html-actions', 'B',
@@ -280,13 +281,13 @@ def run(tier, seed):
                generator='bounded/c10_gen.py stylesheets (seed %d, features "V": no comments inside values / selectors) with recorded '
                          'rules, declarations, names, values, value tokens, before / after offsets' % seed,
                bound='%d trees of <= %d nodes; every position 0..len(doc); get_css_section without and with properties, '
-                     'select_item_css next and previous' % (ntrees, size),
+                     'select_item_css next and previous' % (ncss, size),
                rule='a case is one generated stylesheet; distinct by (seed, index, size)', exhaustive=False)
-    run_parallel(c, 'bounded.c17', 'check_css_random', ((seed, i, size, 'V', 'all') for i in range(ntrees)), chunk=max(1, ntrees // 56))
+    run_parallel(c, 'bounded.c17', 'check_css_random', ((seed, i, size, 'V', 'all') for i in range(ncss)), chunk=max(1, ncss // 56))
     c.done()
     out.append(c)
 
-    nu = ntrees // 2
+    nu = ncss // 2
     c = Clause('css-section-unterminated', 'B',
                generator='as css-actions, but the last declaration of a rule body may be terminated by the end of the body instead of `;` '
                          '(features "UV")',
